@@ -20,13 +20,13 @@ type c19Case struct {
 }
 
 type artefacts struct {
-	name                                          string // go | js | java
-	atn                                           []int
-	rules, literal, symbolic, channels, modes     []string
-	interp                                        *ref.Interp
-	tokens                                        map[string]int
-	listener                                      []string // Enter/Exit method names of the generated listener
-	errs                                          []string
+	name                                      string // go | js | java
+	atn                                       []int
+	rules, literal, symbolic, channels, modes []string
+	interp                                    *ref.Interp
+	tokens                                    map[string]int
+	listener                                  []string // Enter/Exit method names of the generated listener
+	errs                                      []string
 }
 
 func readFile(p string) string {
